@@ -375,11 +375,9 @@ Fixpoint sset {A} (k : string) (v : A) (l : list (string * A)) : list (string * 
   | (k', v') :: t => if String.eqb k k' then (k, v) :: t else (k', v') :: sset k v t
   end.
 
-Fixpoint sdel {A} (k : string) (l : list (string * A)) : list (string * A) :=
-  match l with
-  | [] => []
-  | (k', v') :: t => if String.eqb k k' then t else (k', v') :: sdel k t
-  end.
+(** delete: drops every binding of [k] (bindings are unique in every reachable state) *)
+Definition sdel {A} (k : string) (l : list (string * A)) : list (string * A) :=
+  filter (fun kv => negb (String.eqb k (fst kv))) l.
 
 Definition sp_empty : tc_space := {| sp_gates := []; sp_pipes := [] |}.
 Definition sp_get (c : tc_cat) (s : tc_space) := match c with CP => sp_pipes s | CG => sp_gates s end.
